@@ -38,6 +38,9 @@ def table_inputs():
     for pre in ("[[a|", "<b>", "''", "{{x|", "{{x|y="):
         for dd in (50, 98, 99, 100):
             out += [pre * dd + "{{" * 60 + "a" + "}}" * 60]
+    # comments: terminated and unterminated mixed, inside routes that are retried (F20)
+    out += ["<!--a<!--b-->c<!--d", "{{a|<!--b}}<!--c-->", "<!--" * 5 + "-->", "[[a|<!--b]]<!--c-->d<!--e", "<!--x--><!--y", "''<!--a''<!--b-->",
+            "<b><!--</b><!---->", "<!--<!---->-->", "{{a|<!--}}-->|b}}<!--", "<!--[[a|" * 6, "<b><!--" * 6 + "-->", "{{{a|<!--" * 4 + "}}}"]
     for lvl in range(1, 9):
         out += ["=" * lvl + " h " + "=" * lvl, "=" * lvl + "h" + "=" * (lvl + 1) + "\n", "\n" + "=" * lvl + "=\n"]
     return out
